@@ -173,6 +173,16 @@ func (o *Operator) HandleDeploy(ctx context.Context, req *workerpb.DeployOperato
 		panic(fmt.Sprintf("operator id %s was not included in assembly ids provided by job, %v", o.id, req.Operators))
 	}
 
+	// A redeployed operator starts over from the given checkpoints: the
+	// checkpoint that was in flight in the previous assembly will never get its
+	// remaining barriers (senders waiting for them are let through), and events
+	// not yet processed will be read again.
+	o.checkpoint.abort()
+	o.checkpoint = nil
+	if o.eventBatcher != nil {
+		o.eventBatcher.Flush(batching.CurrentBatch)
+	}
+
 	// Instantiate key space members
 	o.keySpace = partitioning.NewKeySpace(int(req.KeyGroupCount), len(req.Operators))
 	keyGroupRanges := o.keySpace.KeyGroupRanges()
